@@ -80,6 +80,23 @@ CLAIMED = {
          "Interoperability against an independent implementation on real sockets and the TLS/HTTP upgrade bytes (library code) are not decided.",
          "Rules are anchored in transport/conn*.go, transport/ws/ws.go and the protocol constant blocks (ANCHOR-MISSING fails closed).",
          "DESIGN.md 4/C15, 3.4 E8,E9"),
+ "C02": ("static analysis: anchored shape rules (guard atoms, critical-section identity, who-may-call/who-may-spawn), close-awareness of per-pipe goroutines (E4c), channel-capacity inference (E10c), no-duplication who-may-call",
+         "PAIR stores a peer only under peer == nil (and open) under the socket lock, refuses with ErrProtoState without side effects and clears the peer only for the admitted pipe; one sender and one receiver goroutine per pipe and only they call the pipe's SendMsg; "
+         "PUSH dequeues message and pipe in one critical section, starts one send per message, signals the scheduler unconditionally after every enqueue and re-queues a pipe only after a successful send while open; PAIR/PUSH/PULL never Clone or Dup; per-pipe senders stop with their pipe. "
+         "Structural basis of exactly-once/in-order per connection; actual delivery under every schedule and fault is not decided.",
+         "Known finding: xpush accepts WriteQLen=0 (len-polled queue), see known_findings.json.",
+         "DESIGN.md 4/C02"),
+ "C03": ("static analysis: anchored shape rules over SSA of protocol/req (comma-ok lookups, guard atoms, critical-section identity, load-before-store ordering, who-may-write, path-condition predicate)",
+         "Replies are matched by the id word moved from body to header via a comma-ok lookup under the lock; a hit stores the reply and forgets the id unconditionally in the same critical section, a miss is freed; ctxByID is inserted only under the context's own id and deleted only by receiver/cancel keyed by the still-valid id; "
+         "a new Send cancels the previous request before installing its (top-bit) id; Recv without a request returns ErrProtoState before waiting, consumes reply and id only if the request is still its own, and a superseded Recv fails with ErrCanceled. "
+         "Interleavings of late/duplicate replies are covered through these invariants, not enumerated.",
+         "One genuine defect found by these rules was repaired (superseded Recv wiped the newer request's id), see known_findings.json.",
+         "DESIGN.md 4/C03"),
+ "C04": ("static analysis: E5 retained-handoff typestate + anchored shape rules over SSA of protocol/req",
+         "The retained request is cloned before every transmission; each scheduling step pops one context and one pipe, records the carrying pipe on every (re)transmission and starts one sender; the retry timer is armed only for resendTime > 0 with that duration and re-queues only the same unanswered, unqueued request; "
+         "a reply or cancel clears the request and stops the timer; losing the carrying pipe re-sends at once, or cancels when retry is off; pipes are re-queued only while open. 'Never sooner' (time) and liveness under fault sequences are not decided.",
+         "Anchored in protocol/req/req.go functions (ANCHOR-MISSING fails closed).",
+         "DESIGN.md 4/C04"),
 }
 
 NOT_YET = "check not built yet (work in progress; planned static rules in DESIGN.md section 4)"
